@@ -338,6 +338,22 @@ func IsHeaderEvent(e smf.Event) bool {
 	return e.Tick == 0 && (e.IsMeta(0x03) || e.IsMeta(0x04) || e.Status&0xF0 == 0xC0)
 }
 
+// Relevant reports the events the properties talk about: notes, tempo, time signature, key
+// signature, text, lyric, marker. Anything else (track name, instrument name, program
+// change, copyright, cue points, sequencer-specific data ...) is not prescribed and ignored.
+func Relevant(e smf.Event) bool {
+	if e.IsNoteOn() || e.IsNoteOff() {
+		return true
+	}
+	if e.Status == 0xFF {
+		switch e.Meta {
+		case 0x51, 0x58, 0x59, 0x01, 0x05, 0x06:
+			return true
+		}
+	}
+	return false
+}
+
 // Observe merges all tracks.
 func Observe(f *smf.File) *Observed {
 	o := &Observed{Events: map[int64]map[string]int{}}
@@ -347,7 +363,7 @@ func Observe(f *smf.File) *Observed {
 				o.EOT = append(o.EOT, e.Tick)
 				continue
 			}
-			if IsHeaderEvent(e) {
+			if !Relevant(e) {
 				continue
 			}
 			if o.Events[e.Tick] == nil {
@@ -423,6 +439,11 @@ func Match(exp []Exp, o *Observed) string {
 // Check compares a decoded file with the model of the document: every rounding choice of
 // exactly-halfway instances is tried. Returns "" when some choice matches.
 func (m *Model) Check(insts []Inst, fl Flags, f *smf.File) (string, int64) {
+	if int64(f.Division) != m.T {
+		mm := *m
+		mm.T = int64(f.Division) // the resolution is whatever the file header declares
+		m = &mm
+	}
 	o := Observe(f)
 	_, _, amb, err := m.Expect(insts, fl, nil)
 	if err != nil {
